@@ -213,6 +213,18 @@ def generate(ctx):
         if ctx.mine(idx):
             yield {"k": "copies", "s": subseed("c05", ctx.seed, "copies", rep)}
         idx += 1
+    for rep in range(ctx.scale(24, 600)):
+        if ctx.mine(idx):
+            yield {"k": "samename", "s": subseed("c05", ctx.seed, "samename", rep)}
+        idx += 1
+    k = 0
+    for t1 in OVERLAP_FAMILIES:
+        for t2 in OVERLAP_FAMILIES:
+            if t1 != t2:
+                if ctx.mine(idx):
+                    yield {"k": "redeclared", "t1": t1, "t2": t2, "s": subseed("c05", ctx.seed, "redeclared", t1, t2)}
+                idx += 1
+                k += 1
     # grouped records whose members share a field name with DIFFERENT types: every ordered pair of type families; quick samples the
     # position of the shared name, thorough enumerates first / middle / last
     fams = OVERLAP_FAMILIES
@@ -825,8 +837,13 @@ class Hist:
             return
         packer = RecordPacker()
         try:
+            self.before_serialise = snapshot(r)
+        except Exception:  # noqa: BLE001
+            self.before_serialise = None
+        try:
             data = packer.pack(r)
             ctx.event("pack_checked")
+            self.unchanged_by_serialising(r, "the stream packer")
         except Exception as e:  # noqa: BLE001
             ctx.event("pack_failed")
             key = self.classify_pack_failure(r, e)
@@ -845,6 +862,25 @@ class Hist:
         except observe.Untyped as e:
             ctx.violation(None, "untyped slot after decoding", detail=self.detail("decode", [], error=str(e)))
 
+    def unchanged_by_serialising(self, r, who):
+        """serialising is an observation: afterwards the record holds exactly what it held before (types of slots and of list
+        elements included) and is still typed"""
+        ctx = self.ctx
+        before = getattr(self, "before_serialise", None)
+        if before is None:
+            return
+        ctx.event("unchanged_by_serialising_checked")
+        try:
+            after = snapshot(r)
+            observe.assert_typed(r, "after serialising")
+        except Exception as e:  # noqa: BLE001
+            ctx.violation("serialising-changes-the-record", "after being serialised by %s the record is no longer typed / observable" % who, detail=self.detail("serialise", [], error=repr(e)[:300]))
+            return
+        if after != before:
+            ctx.violation("serialising-changes-the-record", "being serialised by %s changed the record" % who,
+                          detail=self.detail("serialise", [], diff=observe.first_diff(before[0], after[0])))
+            self.before_serialise = after
+
     def end_json(self, r):
         """the JSON packer is a serialiser too: whatever the stream packer serialises it must serialise as well (the deprecated
         net.ipv4.Address has no JSON form at all and is left out, see ASSUMPTIONS)"""
@@ -857,6 +893,7 @@ class Hist:
         try:
             JsonRecordPacker().pack(r)
             ctx.event("json_pack_checked")
+            self.unchanged_by_serialising(r, "the JSON packer")
         except Exception as e:  # noqa: BLE001
             ctx.violation(None, "a record that accepted all its assignments cannot be serialised to JSON (%s)" % type(e).__name__,
                           detail=self.detail("json pack", [], exception=repr(e)[:300], record=_safe_obs(r)))
@@ -1027,6 +1064,164 @@ def run_copies(ctx, case):
             continue
         assign_all(orig, copy2, "original", info)
     ctx.sample({"case": case, "shape": "grouped" if grouped else "plain", "operations": [lab for lab, _ in chosen]}, kind="copies:" + ("grouped" if grouped else "plain"))
+
+
+def run_samename(ctx, case):
+    """Two or three descriptors that share the type NAME but not the fields (boolean fields at different names / positions) are
+    written alternately (A B A, B A B ...) through ONE packer / writer each: stream packer, JSON packer, stream and jsonfile
+    writers.  Every record must serialise, leave the record unchanged, and (where read back) come back typed and complete."""
+    from flow.record import JsonRecordPacker, RecordDescriptor, RecordPacker, RecordReader, RecordWriter
+
+    rng = random.Random(case["s"])
+    name = "c05/samename_" + gen.rand_ident(rng)
+    shapes = [
+        [("boolean", "b"), ("string", "s")], [("string", "s"), ("varint", "n"), ("boolean", "flag")], [("boolean[]", "b"), ("boolean", "s")], [("uint16", "b"), ("boolean", "other")],
+        [("string", "s")], [("boolean", "flag"), ("boolean", "b"), ("boolean[]", "many")],
+    ]
+    descs = [RecordDescriptor(name, f) for f in rng.sample(shapes, rng.choice([2, 2, 3]))]
+    order = rng.choice([[0, 1, 0], [1, 0, 1], [0, 1, 0, 1, 0], [0, 0, 1, 1, 0]] + ([[0, 1, 2, 0, 2, 1, 0]] if len(descs) == 3 else []))
+    recs = []
+    for i in order:
+        d = descs[i]
+        recs.append(d.recordType(*[ordinary_value(t, rng) for t, _ in d.get_field_tuples()], _generated=BY_STAMP))
+    info = {"case": case, "descriptors": [[name, list(d.get_field_tuples())] for d in descs], "order": order}
+    before = [snapshot(r) for r in recs]
+
+    def unchanged(via):
+        for r, b in zip(recs, before):
+            ctx.event("unchanged_by_serialising_checked")
+            if snapshot(r) != b:
+                ctx.violation("serialising-changes-the-record", "being serialised by %s changed a record" % via, detail=dict(info, diff=observe.first_diff(b[0], snapshot(r)[0])))
+                return
+
+    for via, mk in (("one RecordPacker", RecordPacker), ("one JsonRecordPacker", JsonRecordPacker)):
+        p = mk()
+        ctx.ev()
+        ctx.cell("samename", via)
+        try:
+            packed = [p.pack(r) for r in recs]
+            ctx.event("samename_packed")
+        except Exception as e:  # noqa: BLE001
+            ctx.violation("packer-state-keyed-by-type-name", "records of same-named descriptors written alternately through %s cannot be serialised (%s)" % (via, type(e).__name__),
+                          detail=dict(info, exception=repr(e)[:300]))
+            continue
+        unchanged(via)
+        try:
+            back = [p.unpack(x) for x in packed]
+            for r, o in zip(back, recs):
+                observe.assert_typed(r, "read back")
+                if via == "one RecordPacker" and observe.obs(r) != observe.obs(o):
+                    ctx.violation("packer-state-keyed-by-type-name", "a record of a same-named descriptor came back differently from %s" % via,
+                                  detail=dict(info, diff=observe.first_diff(observe.obs(o), observe.obs(r))))
+                    break
+            ctx.event("samename_read_back")
+        except observe.Untyped as e:
+            ctx.violation("packer-state-keyed-by-type-name", "untyped slot after reading back via %s" % via, detail=dict(info, error=str(e)))
+        except Exception as e:  # noqa: BLE001 - the packer decodes with its own latest registration; decoding details are C03's / C14's subject
+            ctx.event("samename_unpack_raised:" + type(e).__name__)
+    n = ctx.evaluations
+    for via, path in (("RecordWriter(.records)", os.path.join(ctx.state["tmp"], "sn%d.records" % n)), ("RecordWriter(.jsonl)", os.path.join(ctx.state["tmp"], "sn%d.jsonl" % n))):
+        ctx.ev()
+        ctx.cell("samename", via)
+        try:
+            w = RecordWriter(path)
+            try:
+                for r in recs:
+                    w.write(r)
+                w.flush()
+            finally:
+                w.close()
+            ctx.event("samename_written")
+        except Exception as e:  # noqa: BLE001
+            ctx.violation("packer-state-keyed-by-type-name", "records of same-named descriptors cannot be written alternately through %s (%s)" % (via, type(e).__name__),
+                          detail=dict(info, exception=repr(e)[:300]))
+            continue
+        unchanged(via)
+        try:
+            rd = RecordReader(path)
+            try:
+                got = list(rd)
+            finally:
+                rd.close()
+            if len(got) != len(recs):
+                ctx.violation("packer-state-keyed-by-type-name", "%d records written through %s, %d read back" % (len(recs), via, len(got)), detail=info)
+            for r in got:
+                observe.assert_typed(r, "read back via " + via)
+        except observe.Untyped as e:
+            ctx.violation("packer-state-keyed-by-type-name", "untyped slot after reading back via %s" % via, detail=dict(info, error=str(e)))
+        except Exception as e:  # noqa: BLE001
+            ctx.event("samename_read_raised:" + type(e).__name__)
+        finally:
+            try:
+                os.unlink(path)
+            except OSError:
+                pass
+    ctx.nontrivial("samename", case["s"])
+    ctx.sample({"case": case, "order": order, "descriptors": info["descriptors"]}, kind="samename")
+
+
+def run_redeclared(ctx, case):
+    """A descriptor that declares one field name twice with different types (directly, or through descriptor.extend() with an existing
+    name).  The LAST declaration is the one the descriptor reports (fields / get_all_fields): the record class must enforce that
+    same type - a value of the reported type is accepted and the slot holds an instance of it, after construction, assignment,
+    _replace and a stream round trip."""
+    from flow.record import RecordDescriptor, RecordPacker
+
+    rng = random.Random(case["s"])
+    t1, t2 = case["t1"], case["t2"]
+    name = "c05/redeclared_" + gen.rand_ident(rng)
+    variants = [("direct", lambda: RecordDescriptor(name, [(t1, "x"), ("string", "mid"), (t2, "x")])),
+                ("direct-adjacent", lambda: RecordDescriptor(name + "_a", [("varint", "n"), (t1, "x"), (t2, "x")])),
+                ("extend", lambda: RecordDescriptor(name + "_e", [(t1, "x"), ("string", "mid")]).extend([(t2, "x")])),
+                ("three", lambda: RecordDescriptor(name + "_t", [(t2, "x"), (t1, "x"), (t2, "x"), ("string", "mid")]))]
+    for label, mk in variants:
+        info = {"case": case, "variant": label}
+        try:
+            d = mk()
+        except Exception as e:  # noqa: BLE001 - refusing a repeated name altogether would be fine too
+            ctx.event("redeclared_descriptor_refused")
+            continue
+        ctx.ev()
+        ctx.cell("redeclared", t1, t2)
+        ctx.nontrivial("redeclared", t1, t2, label)
+        reported = d.get_all_fields()["x"]
+        info["reported_type"] = reported.typename
+        ctx.event("redeclared_checked")
+
+        def typed(rec, where):
+            v = rec.x
+            if v is not None:
+                try:
+                    observe._check_value("x", v, reported.type, rec, where)
+                except observe.Untyped as e:
+                    ctx.violation("redeclared-field-enforces-another-type", "a re-declared field holds a value that is not of the type the descriptor reports (%s)" % where,
+                                  detail=dict(info, error=str(e), fields=list(d.get_field_tuples())))
+                    return False
+            return True
+
+        try:
+            r = d(x=ordinary_value(reported.typename, rng))
+        except Exception as e:  # noqa: BLE001
+            ctx.violation("redeclared-field-enforces-another-type", "a value of the type the descriptor reports for a re-declared field was rejected by construction",
+                          detail=dict(info, exception=repr(e)[:300], fields=list(d.get_field_tuples())))
+            continue
+        typed(r, "after construction")
+        for op, fn in (("assignment", lambda: setattr(r, "x", ordinary_value(reported.typename, rng)) or r), ("_replace", lambda: r._replace(x=ordinary_value(reported.typename, rng))),
+                       ("init_from_dict", lambda: d.init_from_dict({"x": ordinary_value(reported.typename, rng)}))):
+            try:
+                typed(fn(), "after " + op)
+            except Exception as e:  # noqa: BLE001
+                ctx.violation("redeclared-field-enforces-another-type", "a value of the reported type was rejected by %s" % op, detail=dict(info, exception=repr(e)[:300]))
+        try:
+            p = RecordPacker()
+            back = p.unpack(p.pack(r))
+            observe.assert_typed(back, "decoded")
+            ctx.event("redeclared_roundtrip")
+        except observe.Untyped as e:
+            ctx.violation("redeclared-field-enforces-another-type", "untyped slot after a stream round trip of a record with a re-declared field", detail=dict(info, error=str(e)))
+        except Exception as e:  # noqa: BLE001
+            ctx.event("redeclared_roundtrip_raised:" + type(e).__name__)
+    ctx.sample({"case": case}, kind="redeclared")
 
 
 def flat_view_typed(ctx, g, where, info):
@@ -2214,7 +2409,11 @@ def run_alias(ctx, case):
 
 def execute(ctx, case):
     k = case["k"]
-    if k == "copies":
+    if k == "samename":
+        run_samename(ctx, case)
+    elif k == "redeclared":
+        run_redeclared(ctx, case)
+    elif k == "copies":
         run_copies(ctx, case)
     elif k == "groupoverlap":
         run_groupoverlap(ctx, case)
@@ -2265,6 +2464,11 @@ def finish(ctx):
     ctx.require(ev.get("alias_identity_checked", 0) > 0, "the default-object identity check never ran")
     ctx.require(ev.get("history_consistency_checked", 0) > 0, "the history-independence monitor never ran")
     ctx.require(ev.get("json_pack_checked", 0) > 0, "the JSON serialisation check never ran")
+    ctx.require(ev.get("unchanged_by_serialising_checked", 0) > 0, "the serialising-leaves-the-record-unchanged monitor never ran")
+    if any(c.startswith("samename/") for c in ctx.cells):
+        ctx.require(ev.get("samename_packed", 0) > 0 and ev.get("samename_written", 0) > 0, "the same-name descriptor family serialised nothing")
+    if any(c.startswith("redeclared/") for c in ctx.cells):
+        ctx.require(ev.get("redeclared_checked", 0) > 0, "the re-declared field family checked nothing")
     if any(c.startswith("copies/") for c in ctx.cells):
         ctx.require(ev.get("copies_assignments", 0) > 0, "the copy-aliasing monitor performed no assignment")
     if any(c.startswith("groupoverlap/") for c in ctx.cells):
